@@ -85,6 +85,14 @@ def check_list(lst, form, add_err):
             if toks != list(lst) and lst:
                 bad.append(('erroneous-tokens', 'parse(%r, add_erroneous=True) -> %r loses/reorders tokens' % (arg, strs)))
         if amb:
+            # ambiguous '38;x' readings: the reduced state must be one of the admissible ones
+            adm = rt.admissible_states(params)
+            if adm is not None and not add_err and lst:
+                got = lib_state(lib_parsing.settings_to_dict(settings))
+                if all(got != ref_state(a) for a in adm):
+                    bad.append(('state', 'parse(%r, False) -> %r reduces to %r; admissible terminal states %r'
+                                % (arg, strs, got, [ref_state(a) for a in adm])))
+                return bad, False
             return bad, True
         if not lst:
             if strs != ['0']:
